@@ -67,7 +67,7 @@ func cliNames(h string) []string {
 	for _, l := range labels() {
 		out = append(out, l+"."+h, l+"."+strings.ToUpper(h), l+"."+h+".evil", l+".x."+h, l+"."+h+".")
 	}
-	out = append(out, "id.x"+h, "id.."+h)
+	out = append(out, "id.x"+h, "id.."+h, "id-"+h, "idx"+h, "id_"+h, "a.id-"+h)
 	return out
 }
 
@@ -315,6 +315,7 @@ func run(c *lib.Ctx) {
 		handleBefore(c)
 	}
 	phaseHist(c)
+	phaseMany(c)
 }
 
 func hostHdr(name, port string) string {
